@@ -86,6 +86,7 @@ func init() {
 				runs = append(runs, &Run{H: sym.Harness{Pkg: p, Func: "VerifHarness_Tables", Workers: 1}, SamplePaths: 1, MinCompleted: 1})
 			}
 			runs = append(runs, &Run{H: sym.Harness{Pkg: "displayp3", Func: "VerifHarness_C01_Wiring", Cfg: cfg, Workers: 1}, ExpectReach: []string{"wired"}, SamplePaths: 1})
+			runs = append(runs, &Run{H: sym.Harness{Pkg: "displayp3", Func: "VerifHarness_C01_Independent", Cfg: cfg, Workers: 6}, ExpectReach: []string{"independent"}, SamplePaths: 1})
 			runs = append(runs, &Run{H: sym.Harness{Pkg: "srgb", Func: "VerifHarness_C01_NegControl", Cfg: cfg, Workers: 1}, NegControl: true})
 			return runs
 		},
